@@ -122,6 +122,15 @@ impl SteelHashMap {
     pub fn iter(&self) -> impl Iterator<Item = (&SteelVal, &SteelVal)> {
         self.0.iter().map(|(k, v)| (k, v))
     }
+    pub fn keys(&self) -> impl Iterator<Item = &SteelVal> {
+        self.0.iter().map(|(k, _)| k)
+    }
+    pub fn values(&self) -> impl Iterator<Item = &SteelVal> {
+        self.0.iter().map(|(_, v)| v)
+    }
+    pub fn len(&self) -> usize {
+        self.0.len()
+    }
 }
 #[derive(Clone, Debug)]
 pub struct SteelHashSet(pub Gc<Vec<SteelVal>>);
